@@ -411,12 +411,14 @@ impl Engine for WorldEngine {
   fn crash_probes(&self, p: &str, tier: &str) -> Vec<String> {
     match p {
       "C16" => sdjwt::crash_probes(tier),
+      "C01" => notice::crash_probes(tier),
       _ => Vec::new(),
     }
   }
   fn run_crash_probe(&self, p: &str, name: &str) -> String {
     match p {
       "C16" => sdjwt::run_crash_probe(name),
+      "C01" => notice::run_crash_probe(name),
       _ => "no such probe".to_owned(),
     }
   }
